@@ -728,6 +728,7 @@ func vFrame(p *vPre, r *raft, c vCluster, tag string) {
 		if m.Type == pb.ReadIndexResp {
 			vAssert(m.LogIndex <= post.committed, tag+"R5-readindexresp-le-committed")
 		}
+		vSenderTruthful(m, r, post, tag)
 		if _, isW := r.witnesses[m.To]; isW {
 			// C18 witnesses never receive user payloads
 			if m.Type == pb.Replicate {
@@ -759,4 +760,69 @@ func vFrame(p *vPre, r *raft, c vCluster, tag string) {
 
 func vConfig(self uint64) config.Config {
 	return config.Config{ShardID: 1, ReplicaID: self, ElectionRTT: 3, HeartbeatRTT: 1}
+}
+
+// vRemoteOf returns the leader's progress record of a member of any kind.
+func vRemoteOf(r *raft, id uint64) *remote {
+	if x, ok := r.remotes[id]; ok {
+		return x
+	}
+	if x, ok := r.witnesses[id]; ok {
+		return x
+	}
+	if x, ok := r.nonVotings[id]; ok {
+		return x
+	}
+	return nil
+}
+
+// vSenderTruthful is the guarantee side of the receivers' "messages are not
+// fabricated" assumption: what a replica puts into an outgoing message is what
+// its own log says.  Checked on every outgoing message of every step.
+func vSenderTruthful(m *pb.Message, r *raft, post *vLogSnap, tag string) {
+	switch m.Type {
+	case pb.Replicate:
+		// (a leader never truncates its log, so a message built earlier in the
+		// same step is still a truthful excerpt of the post-state log)
+		if r.state == leader {
+			vAssert(m.Term == r.term, tag+"G-replicate-carries-own-term")
+		}
+		vAssert(m.LogIndex >= post.base(), tag+"G-replicate-prev-index-available")
+		vAssert(m.LogTerm == post.term(m.LogIndex), tag+"G-replicate-prev-term-is-own-log")
+		_, toWitness := r.witnesses[m.To]
+		for j := range m.Entries {
+			e := &m.Entries[j]
+			vAssert(e.Index == m.LogIndex+1+uint64(j), tag+"G-replicate-entries-contiguous")
+			t, ty, ok := post.at(e.Index)
+			vAssert(vAnd(ok, t == e.Term), tag+"G-replicate-entries-are-own-log")
+			if !toWitness {
+				vAssert(ty == uint64(e.Type), tag+"G-replicate-entry-type-is-own-log")
+			} else {
+				vAssert(vOr(ty == uint64(e.Type), e.Type == pb.MetadataEntry), tag+"G-replicate-entry-type-is-own-log")
+			}
+		}
+		vAssert(m.Commit <= post.committed, tag+"G-replicate-commit-le-own-commit")
+	case pb.Heartbeat:
+		vAssert(m.Commit <= post.committed, tag+"G-heartbeat-commit-le-own-commit")
+		if rm := vRemoteOf(r, m.To); rm != nil && r.state == leader {
+			// never tells a follower to commit what it has not acknowledged
+			vAssert(m.Commit <= rm.match, tag+"G-heartbeat-commit-le-acknowledged")
+		}
+	case pb.InstallSnapshot:
+		vAssert(m.Snapshot.Index <= post.committed, tag+"G-snapshot-le-own-commit")
+		vAssert(vImplies(m.Snapshot.Index >= post.base(), post.term(m.Snapshot.Index) == m.Snapshot.Term), tag+"G-snapshot-term-is-own-log")
+	case pb.RequestVote:
+		vAssert(m.Term == r.term, tag+"G-requestvote-carries-own-term")
+		vAssert(m.LogIndex == post.last(), tag+"G-requestvote-last-index")
+		vAssert(m.LogTerm == post.term(post.last()), tag+"G-requestvote-last-term")
+	case pb.RequestPreVote:
+		vAssert(m.Term == r.term+1, tag+"G-prevote-carries-next-term")
+		vAssert(m.LogIndex == post.last(), tag+"G-requestvote-last-index")
+		vAssert(m.LogTerm == post.term(post.last()), tag+"G-requestvote-last-term")
+	case pb.ReplicateResp:
+		if !m.Reject {
+			// an acknowledgement never claims more than the replica holds
+			vAssert(m.LogIndex <= post.last(), tag+"G-ack-le-last")
+		}
+	}
 }
